@@ -62,7 +62,8 @@ def plan(tier):
         "timeout_s": 1800 if quick else 4000,
         "min_nontrivial": 40 if quick else 300,
         "required_counters": ["j1_returns_joined", "j2_results_compared", "u_undeploys_judged", "queue_log_records"],
-        "rule": "a case = (1..6 jobs with start delay, pending/running ticks, exit code, stdout-to-file flag; "
+        "rule": "a case = (1..6 jobs with start delay, pending/running ticks, exit code, stdout-to-file flag, service; "
+                "0/2/3 services defined on the connector; "
                 "polling interval; first job id; foreign jobs; undeploy point or none). Non-trivial = at least one "
                 "run() returned or an undeploy was judged. Distinct interleavings = distinct hashes of the fake "
                 "queue's log (order of submit/start/finish/cancel/squeue listings).",
@@ -89,7 +90,16 @@ def gen_case(rng):
         kind = rng.choice(["ack", "ack", "run-return", "delay"])
         und = {"after": kind, "count": rng.randint(0, n) if kind != "delay" else 0,
                "plus": round(rng.choice([0.0, 0.0, 0.01, 0.05, 0.2]) * rng.random(), 4)}
-    return {"jobs": jobs, "poll": rng.choice([0.01, 0.05, 0.01, 0.05, 0.25]), "first_id": rng.choice([0, 8, 98, 998, 41]),
+    poll = rng.choice([0.01, 0.05, 0.01, 0.05, 0.25])
+    # half of the scenarios: the connector defines 2..3 `services` and the jobs are spread over them
+    # (locations from get_available_locations(service=...) differ by `service`, the polling cache is
+    # one entry per connector); these poll slowly more often so that cached listings get reused
+    nsvc = rng.choice([0, 0, 2, 3]) if n > 1 else rng.choice([0, 0, 0, 2])
+    if nsvc:
+        poll = rng.choice([0.05, 0.25, 0.25])
+        for j in jobs:
+            j["svc"] = rng.choice([None] + list(range(nsvc))) if rng.random() < 0.15 else rng.randrange(nsvc)
+    return {"jobs": jobs, "poll": poll, "first_id": rng.choice([0, 8, 98, 998, 41]), "services": nsvc,
             "foreign": foreign, "undeploy_at": und, "nonce": "%06x" % rng.getrandbits(24)}
 
 
@@ -137,13 +147,23 @@ async def run_scenario(env, case, wall=600.0):
     dm = env.ctx.deployment_manager
     ln, sn = f"loc{env.k}", f"sl{env.k}"
     await dm.deploy(DeploymentConfig(name=ln, type="local", config={}, external=True, lazy=False, workdir=wd))
-    await dm.deploy(DeploymentConfig(name=sn, type="slurm", config={"pollingInterval": case["poll"], "maxConcurrentJobs": 8},
+    cfg = {"pollingInterval": case["poll"], "maxConcurrentJobs": 8}
+    nsvc = case.get("services", 0)
+    if nsvc:
+        cfg["services"] = {f"s{k}": {"partition": f"part{k}", "jobName": f"vf-s{k}"} for k in range(nsvc)}
+    await dm.deploy(DeploymentConfig(name=sn, type="slurm", config=cfg,
                                      external=False, lazy=False, wraps=WrapsConfig(deployment=ln)))
     conn = dm.get_connector(sn)
-    loc = next(iter((await conn.get_available_locations()).values())).location
     fake_env = {"PATH": env.bin + os.pathsep + os.environ.get("PATH", ""), "VF_SLURM_STATE": state,
                 "VF_SLURM_FIRST_ID": str(case["first_id"])}
-    loc.wraps.environment = dict(fake_env)  # the inner (LocalConnector) location: PATH with the fakes first
+    locs = {}
+    for svc in [None] + [f"s{k}" for k in range(nsvc)]:
+        l = next(iter((await conn.get_available_locations(service=svc)).values())).location
+        l.wraps.environment = dict(fake_env)  # the inner (LocalConnector) location: PATH with the fakes first
+        locs[svc] = l
+
+    def loc_of(j):
+        return locs[f"s{j['svc']}" if j.get("svc") is not None else None]
 
     seq = [0]
     H = []  # harness-side records, totally ordered: [seq, kind, job index, data]
@@ -194,7 +214,7 @@ async def run_scenario(env, case, wall=600.0):
         if j["to_file"]:
             kw["stdout"] = f"o_{i}.txt"
         try:
-            r = await conn.run(loc, ["echo", expected_out(i) + ";", "exit", str(j["rc"])],
+            r = await conn.run(loc_of(j), ["echo", expected_out(i) + ";", "exit", str(j["rc"])],
                                environment={"VF_JOB": str(i), "VF_TICKS_P": str(j["tp"]), "VF_TICKS_R": str(j["tr"])},
                                workdir=wd, capture_output=True, job_name=f"/vf/{i}", **kw)
         except asyncio.CancelledError:
@@ -430,6 +450,9 @@ async def run_case(env, sh, case, stats, sample=False):
     stats.hist[f"jobs={len(case['jobs'])}"] += 1
     stats.hist[f"poll={case['poll']}"] += 1
     stats.hist["undeploy" if case["undeploy_at"] is not None else "no-undeploy"] += 1
+    stats.hist[f"services={case.get('services', 0)}"] += 1
+    if len({j.get("svc") for j in case["jobs"]}) > 1:
+        stats.hist["jobs-on-different-services"] += 1
     sh.case(case, nontrivial=nontrivial)
     if sample:
         sh.sample({"case": case, "queue_log": obs["log"][:40],
